@@ -1,2 +1,757 @@
+(* Proofs about the MIKEY model (Mikey.v): totality of Unmarshal (no checked index / slice primitive ever
+   fails, the loops never run out of fuel), Marshal;Unmarshal round trip on well-formed values, marshalled
+   bytes are bytes.  Shared file (symlinked into coq/headers): siblings imported through the prefix GV only. *)
 From GVL Require Import NList Wire.
+From GVG Require Import Consts.
 From GV Require Import Res Mikey.
+From Coq Require Import ZifyBool ZifyNat ZifyN.
+Open Scope N_scope.
+
+Ltac Zify.zify_post_hook ::= Z.div_mod_to_equations.
+
+Ltac unfold_consts :=
+  unfold mikey_pt_kemac, mikey_pt_t, mikey_pt_sp, mikey_pt_rand, mikey_pt_keydata, mikey_dt_initiator_psk,
+    mikey_map_srtp_id, mikey_encr_null, mikey_mac_null, mikey_kd_tek, mikey_kv_null, mikey_kv_spi in *.
+
+(* ================= checked primitives ================= *)
+
+Lemma idx_ok l i : i < nlen l -> exists x, idx l i = Ok x.
+Proof. intros H. unfold idx. destruct (nnth_lt l i H) as [x ->]. eauto. Qed.
+
+Lemma slice_ok l i j : i <= j -> j <= nlen l -> slice l i j = Ok (ntake (j - i) (ndrop i l)).
+Proof.
+  intros H1 H2. unfold slice, nsub.
+  destruct (N.leb_spec i j); [|lia]. destruct (N.leb_spec j (nlen l)); [|lia]. reflexivity.
+Qed.
+
+Lemma slice_from_ok l i : i <= nlen l -> slice_from l i = Ok (ndrop i l).
+Proof.
+  intros H. unfold slice_from. rewrite slice_ok by lia. f_equal.
+  apply ntake_all. rewrite nlen_ndrop. lia.
+Qed.
+
+Lemma nlen_slice_ok (l : list N) i j : i <= j -> j <= nlen l -> nlen (ntake (j - i) (ndrop i l)) = j - i.
+Proof. intros. rewrite nlen_ntake, nlen_ndrop. lia. Qed.
+
+(* ================= totality ================= *)
+
+(* [good P r]: r is not Panic, and if it is a value the value satisfies P *)
+Definition good {A} (P : A -> Prop) (r : res A) : Prop :=
+  match r with Ok a => P a | Err => True | Panic => False end.
+
+Lemma good_bind {A B} (P : B -> Prop) (r : res A) (k : A -> res B) :
+  good (fun a => good P (k a)) r -> good P (bind r k).
+Proof. destruct r; cbn [good bind]; auto. Qed.
+
+Lemma good_mono {A} (P Q : A -> Prop) (r : res A) : (forall a, P a -> Q a) -> good P r -> good Q r.
+Proof. destruct r; cbn [good]; auto. Qed.
+
+Lemma good_not_panic {A} (P : A -> Prop) (r : res A) : good P r -> r <> Panic.
+Proof. destruct r; cbn [good]; intros H; [discriminate|discriminate|contradiction]. Qed.
+
+Lemma good_idx (P : N -> Prop) l i : i < nlen l -> (forall x, P x) -> good P (idx l i).
+Proof. intros H HP. destruct (idx_ok l i H) as [x ->]. apply HP. Qed.
+
+(* one step of a totality proof: resolve the primitive at the head of the term *)
+Ltac tstep :=
+  lazymatch goal with
+  | |- good _ (bind (idx ?l ?i) _) =>
+      let x := fresh "x" in let Hx := fresh "Hx" in
+      destruct (idx_ok l i) as [x Hx]; [try lia | rewrite Hx; cbn [bind]; clear Hx]
+  | |- good _ (bind (slice_from ?l ?i) _) =>
+      rewrite (slice_from_ok l i) by lia; cbn [bind]
+  | |- good _ (bind (slice ?l ?i ?j) _) =>
+      rewrite (slice_ok l i j) by lia; cbn [bind]
+  | |- good _ (if ?a <? ?b then Err else _) =>
+      let H := fresh "Hc" in destruct (N.ltb_spec a b) as [H|H]; [exact I|]
+  | |- good _ (if negb (?a =? ?b) then Err else _) =>
+      let H := fresh "Hc" in destruct (N.eqb_spec a b) as [H|H]; cbn [negb]; [|exact I]
+  | |- good _ (if ?c then Err else _) =>
+      let H := fresh "Hc" in destruct c eqn:H; [exact I|]
+  end.
+
+Lemma get_be32_good (P : N -> Prop) buf n : n + 3 < nlen buf -> (forall x, P x) -> good P (get_be32 buf n).
+Proof. intros H HP. unfold get_be32. do 4 tstep. apply HP. Qed.
+
+Lemma um_map_good : forall fuel buf k n,
+  n + 9 * k <= nlen buf -> k <= nlen fuel ->
+  good (fun r => snd r = n + 9 * k) (um_map fuel buf k n).
+Proof.
+  induction fuel as [|f fuel IH]; intros buf k n Hb Hf; cbn [um_map nlen] in *.
+  - destruct (N.eqb_spec k 0); [cbn [good snd]; lia | lia].
+  - destruct (N.eqb_spec k 0) as [->|Hk]; [cbn [good snd]; lia|].
+    tstep.
+    apply good_bind, get_be32_good; [lia|]; intros s.
+    apply good_bind, get_be32_good; [lia|]; intros r.
+    apply good_bind. eapply good_mono; [|apply (IH buf (N.pred k) (n + 9)); lia].
+    intros [rest n'] Hn; cbn [snd good] in *. lia.
+Qed.
+
+Lemma um_header_good buf :
+  good (fun r => 10 <= snd (fst r) <= nlen buf) (um_header buf).
+Proof.
+  unfold um_header. tstep. do 2 tstep. do 2 tstep. do 2 tstep.
+  set (v := negb _). destruct v; [exact I|]. tstep.
+  apply good_bind, get_be32_good; [lia|]; intros csb.
+  do 2 tstep. tstep. tstep. rewrite nlen_ndrop in *. tstep.
+  apply good_bind. eapply good_mono; [|apply um_map_good; lia].
+  intros [mi n] Hn; cbn [snd fst good] in *. lia.
+Qed.
+
+Lemma um_key_data_good buf :
+  good (fun r => 1 <= snd r <= nlen buf) (um_key_data buf).
+Proof.
+  unfold um_key_data. tstep. tstep.
+  set (t := N.shiftr _ _). set (kv := N.land _ _).
+  tstep. tstep. do 2 tstep. tstep. rewrite nlen_ndrop in *. tstep. tstep.
+  destruct (kv =? mikey_kv_spi).
+  - tstep. rewrite nlen_ndrop in *. tstep. tstep. tstep. rewrite nlen_ndrop in *. tstep. tstep.
+    cbn [good snd]. lia.
+  - cbn [good snd]. lia.
+Qed.
+
+Lemma um_subs_good : forall fuel ed sn,
+  sn <= nlen ed -> nlen ed < sn + nlen fuel ->
+  good (fun r => snd r <= nlen ed) (um_subs fuel ed sn).
+Proof.
+  induction fuel as [|f fuel IH]; intros ed sn Hs Hf; cbn [um_subs nlen] in *; [lia|].
+  tstep. apply good_bind.
+  eapply good_mono; [|apply um_key_data_good].
+  intros [kd l] Hl; cbn [snd] in Hl. rewrite nlen_ndrop in Hl.
+  tstep. destruct (x =? 0); [cbn [good snd]; lia|]. tstep.
+  apply good_bind. eapply good_mono; [|apply (IH ed (sn + l)); lia].
+  intros [rest sn'] Hn; cbn [snd good] in *. lia.
+Qed.
+
+Lemma um_kemac_good buf : good (fun r => 1 <= snd r <= nlen buf) (um_kemac buf).
+Proof.
+  unfold um_kemac. tstep. do 2 tstep. do 2 tstep. tstep. rewrite nlen_ndrop in *. tstep. tstep.
+  set (ed := ntake _ _).
+  assert (Hed : nlen ed = be16 x0 x1) by (unfold ed; rewrite nlen_ntake, nlen_ndrop; lia).
+  apply good_bind. eapply good_mono; [|apply um_subs_good; cbn [nlen]; lia].
+  intros [subs sn] Hn; cbn [snd] in Hn.
+  tstep. tstep. tstep. cbn [good snd]. lia.
+Qed.
+
+Lemma um_t_good buf : good (fun r => 1 <= snd r <= nlen buf) (um_t buf).
+Proof. unfold um_t. tstep. do 2 tstep. do 8 tstep. cbn [good snd]. lia. Qed.
+
+Lemma um_sp_params_good : forall fuel buf n end_,
+  n <= nlen buf -> nlen buf < n + nlen fuel ->
+  good (fun r => n <= snd r <= nlen buf) (um_sp_params fuel buf n end_).
+Proof.
+  induction fuel as [|f fuel IH]; intros buf n end_ Hn Hf; cbn [um_sp_params nlen] in *; [lia|].
+  tstep. destruct (n =? end_); [cbn [good snd]; lia|].
+  tstep. rewrite nlen_ndrop in *. tstep. do 2 tstep. tstep. rewrite nlen_ndrop in *. tstep. tstep.
+  apply good_bind. eapply good_mono; [|apply (IH buf (n + 2 + x0) end_); lia].
+  intros [rest n'] Hn'; cbn [snd good] in *. lia.
+Qed.
+
+Lemma um_sp_good buf : good (fun r => 1 <= snd r <= nlen buf) (um_sp buf).
+Proof.
+  unfold um_sp. tstep. do 2 tstep. tstep. do 2 tstep.
+  apply good_bind. eapply good_mono; [|apply um_sp_params_good; lia].
+  intros [ps n] Hn; cbn [snd good] in *. lia.
+Qed.
+
+Lemma um_rand_good buf : good (fun r => 1 <= snd r <= nlen buf) (um_rand buf).
+Proof.
+  unfold um_rand. tstep. tstep. tstep. tstep. rewrite nlen_ndrop in *. tstep. tstep.
+  cbn [good snd]. lia.
+Qed.
+
+Lemma um_payload_good t buf : good (fun r => 1 <= snd r <= nlen buf) (um_payload t buf).
+Proof.
+  unfold um_payload.
+  destruct (t =? mikey_pt_kemac); [apply um_kemac_good|].
+  destruct (t =? mikey_pt_t); [apply um_t_good|].
+  destruct (t =? mikey_pt_sp); [apply um_sp_good|].
+  destruct (t =? mikey_pt_rand); [apply um_rand_good|exact I].
+Qed.
+
+Lemma um_payloads_good : forall fuel buf n npt,
+  n <= nlen buf -> nlen buf < n + nlen fuel ->
+  good (fun r => snd r <= nlen buf) (um_payloads fuel buf n npt).
+Proof.
+  induction fuel as [|f fuel IH]; intros buf n npt Hn Hf; cbn [um_payloads nlen] in *; [lia|].
+  destruct (npt =? 0); [cbn [good snd]; lia|].
+  tstep. tstep. apply good_bind.
+  eapply good_mono; [|apply um_payload_good].
+  intros [p l] Hl; cbn [snd] in Hl. rewrite nlen_ndrop in Hl.
+  tstep. apply good_bind. eapply good_mono; [|apply (IH buf (n + l) x); lia].
+  intros [rest n'] Hn'; cbn [snd good] in *. lia.
+Qed.
+
+Lemma mikey_unmarshal_good buf : good (fun _ => True) (mikey_unmarshal buf).
+Proof.
+  unfold mikey_unmarshal. apply good_bind.
+  eapply good_mono; [|apply um_header_good].
+  intros [[h n] np] Hn; cbn [snd fst] in Hn.
+  apply good_bind. eapply good_mono; [|apply um_payloads_good; lia].
+  intros [ps n'] Hn'; cbn [snd] in Hn'.
+  destruct (N.ltb_spec (n' + 1) (nlen buf)); [|exact I].
+  tstep. destruct (negb (x =? 0)); exact I.
+Qed.
+
+(* Message.Unmarshal never panics, whatever the input (even for lists whose elements are not bytes). *)
+Theorem mikey_total : forall b, mikey_unmarshal b <> Panic.
+Proof. intros b. exact (good_not_panic _ _ (mikey_unmarshal_good b)). Qed.
+
+Theorem mikey_unmarshal_deterministic : forall b r1 r2,
+  mikey_unmarshal b = r1 -> mikey_unmarshal b = r2 -> r1 = r2.
+Proof. intros b r1 r2 <- <-. reflexivity. Qed.
+
+Theorem mikey_marshal_deterministic : forall m b1 b2,
+  mikey_marshal m = b1 -> mikey_marshal m = b2 -> b1 = b2.
+Proof. intros m b1 b2 <- <-. reflexivity. Qed.
+
+(* ================= round trip ================= *)
+
+(* primitives at a position described by an explicit decomposition of the buffer *)
+Lemma idx_at pre x post buf i : buf = pre ++ x :: post -> i = nlen pre -> idx buf i = Ok x.
+Proof.
+  intros -> ->. unfold idx.
+  induction pre as [|y pre IH]; cbn [app nlen nnth]; [reflexivity|].
+  destruct (N.eqb_spec (N.succ (nlen pre)) 0); [lia|]. now rewrite N.pred_succ.
+Qed.
+
+Lemma slice_at pre mid post buf i j :
+  buf = pre ++ mid ++ post -> i = nlen pre -> j = i + nlen mid -> slice buf i j = Ok mid.
+Proof.
+  intros -> -> ->. rewrite slice_ok; [|lia|rewrite !nlen_app; lia].
+  rewrite ndrop_app_exact. replace (nlen pre + nlen mid - nlen pre) with (nlen mid) by lia.
+  now rewrite ntake_app_exact.
+Qed.
+
+Lemma slice_from_at pre post buf i : buf = pre ++ post -> i = nlen pre -> slice_from buf i = Ok post.
+Proof.
+  intros -> ->. rewrite slice_from_ok by (rewrite nlen_app; lia). now rewrite ndrop_app_exact.
+Qed.
+
+Ltac list_eq := repeat first [rewrite <- app_assoc | progress cbn [app]]; reflexivity.
+Ltac len_eq := repeat first [rewrite nlen_app | progress cbn [nlen app]]; lia.
+
+Lemma byte_small x : x < 256 -> byte x = x.
+Proof. intros H. unfold byte. now apply N.mod_small. Qed.
+Lemma byte_lt x : byte x < 256.
+Proof. unfold byte. apply N.mod_lt. lia. Qed.
+
+Lemma be16_put x : x < 65536 -> be16 (byte (x / 256)) (byte x) = x.
+Proof. intros H. unfold be16, byte. lia. Qed.
+Lemma be32_put x : x < 4294967296 ->
+  be32 (byte (x / 16777216)) (byte (x / 65536)) (byte (x / 256)) (byte x) = x.
+Proof. intros H. unfold be32, byte. lia. Qed.
+Lemma divmod256 y : exists q r, y / 256 = q /\ y mod 256 = r /\ y = 256 * q + r /\ r < 256.
+Proof. exists (y / 256), (y mod 256). repeat split; lia. Qed.
+
+Lemma be64_put x : x < 18446744073709551616 ->
+  be64 (byte (x / 72057594037927936)) (byte (x / 281474976710656)) (byte (x / 1099511627776))
+       (byte (x / 4294967296)) (byte (x / 16777216)) (byte (x / 65536)) (byte (x / 256)) (byte x) = x.
+Proof.
+  intros H. unfold be64, byte.
+  replace (x / 65536) with (x / 256 / 256) by (rewrite N.div_div by lia; reflexivity).
+  replace (x / 16777216) with (x / 256 / 256 / 256) by (rewrite !N.div_div by lia; reflexivity).
+  replace (x / 4294967296) with (x / 256 / 256 / 256 / 256) by (rewrite !N.div_div by lia; reflexivity).
+  replace (x / 1099511627776) with (x / 256 / 256 / 256 / 256 / 256) by (rewrite !N.div_div by lia; reflexivity).
+  replace (x / 281474976710656) with (x / 256 / 256 / 256 / 256 / 256 / 256)
+    by (rewrite !N.div_div by lia; reflexivity).
+  replace (x / 72057594037927936) with (x / 256 / 256 / 256 / 256 / 256 / 256 / 256)
+    by (rewrite !N.div_div by lia; reflexivity).
+  destruct (divmod256 x) as (q1 & r0 & -> & -> & E0 & R0).
+  destruct (divmod256 q1) as (q2 & r1 & -> & -> & E1 & R1).
+  destruct (divmod256 q2) as (q3 & r2 & -> & -> & E2 & R2).
+  destruct (divmod256 q3) as (q4 & r3 & -> & -> & E3 & R3).
+  destruct (divmod256 q4) as (q5 & r4 & -> & -> & E4 & R4).
+  destruct (divmod256 q5) as (q6 & r5 & -> & -> & E5 & R5).
+  destruct (divmod256 q6) as (q7 & r6 & -> & -> & E6 & R6).
+  rewrite (N.mod_small q7) by lia. lia.
+Qed.
+
+Lemma get_be32_at pre x post buf n :
+  buf = pre ++ put_be32 x ++ post -> n = nlen pre -> x < 4294967296 -> get_be32 buf n = Ok x.
+Proof.
+  intros -> -> Hx. unfold get_be32, put_be32.
+  rewrite (idx_at pre _ ([byte (x / 65536); byte (x / 256); byte x] ++ post)) by (list_eq || len_eq).
+  cbn [bind].
+  rewrite (idx_at (pre ++ [byte (x / 16777216)]) _ ([byte (x / 256); byte x] ++ post)) by (list_eq || len_eq).
+  cbn [bind].
+  rewrite (idx_at (pre ++ [byte (x / 16777216); byte (x / 65536)]) _ ([byte x] ++ post)) by (list_eq || len_eq).
+  cbn [bind].
+  rewrite (idx_at (pre ++ [byte (x / 16777216); byte (x / 65536); byte (x / 256)]) _ post) by (list_eq || len_eq).
+  cbn [bind]. now rewrite be32_put.
+Qed.
+
+Ltac bool_hyps := repeat match goal with
+  | H : _ && _ = true |- _ => apply andb_true_iff in H; destruct H
+  | H : _ || _ = true |- _ => apply orb_true_iff in H; destruct H
+  | H : (_ =? _) = true |- _ => apply N.eqb_eq in H
+  | H : (_ <? _) = true |- _ => apply N.ltb_lt in H
+  | H : (_ <=? _) = true |- _ => apply N.leb_le in H
+  | H : negb _ = true |- _ => apply negb_true_iff in H
+  end.
+
+(* the length test at the head of the term is false *)
+Ltac ltb_no :=
+  match goal with
+  | |- context [if ?a <? ?b then Err else _] =>
+      let Hc := fresh "Hc" in
+      destruct (N.ltb_spec a b) as [Hc|_]; [exfalso; revert Hc; len_eq|]
+  end.
+Ltac side := solve [list_eq | len_eq].
+
+Lemma um_rand_rt d nt rest : wf_payload (PRand d) = true ->
+  um_rand (m_payload nt (PRand d) ++ rest) = Ok (PRand d, nlen (m_payload nt (PRand d))).
+Proof.
+  cbn [wf_payload m_payload]. intros Hwf. bool_hyps.
+  rewrite (byte_small (nlen d)) by lia.
+  unfold um_rand. ltb_no.
+  rewrite (idx_at [byte nt] (nlen d) (d ++ rest)) by side. cbn [bind].
+  ltb_no.
+  rewrite (slice_from_at [byte nt; nlen d] (d ++ rest)) by side. cbn [bind].
+  ltb_no.
+  rewrite (slice_at [byte nt; nlen d] d rest) by side. cbn [bind].
+  f_equal. f_equal. len_eq.
+Qed.
+
+Lemma um_t_rt ty v nt rest : wf_payload (PT ty v) = true ->
+  um_t (m_payload nt (PT ty v) ++ rest) = Ok (PT ty v, nlen (m_payload nt (PT ty v))).
+Proof.
+  cbn [wf_payload m_payload]. intros Hwf. bool_hyps. subst ty.
+  unfold um_t, put_be64. ltb_no.
+  cbn [app idx nnth N.eqb Pos.eqb N.pred Pos.pred_N Pos.pred_double bind negb].
+  change (byte 0) with 0. cbn [N.eqb negb]. rewrite be64_put by assumption. reflexivity.
+Qed.
+
+Lemma nlen_m_params ps : nlen (concat (map m_param ps)) = params_len ps.
+Proof.
+  induction ps as [|p ps IH]; cbn [map concat params_len nlen]; [reflexivity|].
+  rewrite nlen_app, IH. unfold m_param. cbn [nlen]. lia.
+Qed.
+
+Lemma um_sp_params_rt : forall ps fuel pre rest n end_,
+  forallb wf_param ps = true ->
+  n = nlen pre -> end_ = n + params_len ps -> params_len ps <= nlen fuel ->
+  um_sp_params fuel (pre ++ concat (map m_param ps) ++ rest) n end_ = Ok (ps, end_).
+Proof.
+  induction ps as [|[ty v] ps IH]; intros fuel pre rest n end_ Hwf Hn He Hf;
+    cbn [forallb params_len map concat snd fst] in *.
+  - destruct fuel; cbn [um_sp_params];
+      (destruct (N.ltb_spec end_ n); [lia|]); (destruct (N.eqb_spec n end_); [|lia]); f_equal; f_equal; lia.
+  - apply andb_true_iff in Hwf. destruct Hwf as [Hp Hps].
+    unfold wf_param in Hp. cbn [fst snd] in Hp. bool_hyps.
+    destruct fuel as [|f fuel]; cbn [nlen] in Hf; [lia|]. cbn [um_sp_params].
+    destruct (N.ltb_spec end_ n); [lia|]. destruct (N.eqb_spec n end_); [lia|].
+    change (m_param (ty, v)) with (byte ty :: byte (nlen v) :: v).
+    rewrite (byte_small ty), (byte_small (nlen v)) by lia.
+    rewrite <- app_assoc.
+    set (tl := concat (map m_param ps) ++ rest).
+    rewrite (slice_from_at pre ((ty :: nlen v :: v) ++ tl)) by (unfold tl; side). cbn [bind].
+    ltb_no.
+    rewrite (idx_at pre ty ((nlen v :: v) ++ tl)) by (unfold tl; side). cbn [bind].
+    rewrite (idx_at (pre ++ [ty]) (nlen v) (v ++ tl)) by (unfold tl; side). cbn [bind].
+    rewrite (slice_from_at (pre ++ [ty; nlen v]) (v ++ tl)) by (unfold tl; side). cbn [bind].
+    ltb_no.
+    rewrite (slice_at (pre ++ [ty; nlen v]) v tl) by (unfold tl; side). cbn [bind].
+    unfold tl.
+    replace (pre ++ (ty :: nlen v :: v) ++ concat (map m_param ps) ++ rest)
+      with ((pre ++ ty :: nlen v :: v) ++ concat (map m_param ps) ++ rest) by list_eq.
+    rewrite (IH fuel (pre ++ ty :: nlen v :: v) rest (n + 2 + nlen v) end_); try assumption; try len_eq.
+    reflexivity.
+Qed.
+
+Lemma um_sp_rt pn pr ps nt rest : wf_payload (PSP pn pr ps) = true ->
+  um_sp (m_payload nt (PSP pn pr ps) ++ rest) = Ok (PSP pn pr ps, nlen (m_payload nt (PSP pn pr ps))).
+Proof.
+  cbn [wf_payload m_payload]. intros Hwf. bool_hyps. subst pr.
+  rewrite (byte_small pn) by lia. change (byte 0) with 0.
+  unfold um_sp, put_be16. ltb_no.
+  cbn [app].
+  erewrite (idx_at [byte nt] pn) by side. cbn [bind].
+  erewrite (idx_at [byte nt; pn] 0) by side. cbn [bind N.eqb negb].
+  erewrite (idx_at [byte nt; pn; 0] (byte (params_len ps / 256))) by side. cbn [bind].
+  erewrite (idx_at [byte nt; pn; 0; byte (params_len ps / 256)] (byte (params_len ps))) by side. cbn [bind].
+  rewrite be16_put by lia.
+  set (pre := [byte nt; pn; 0; byte (params_len ps / 256); byte (params_len ps)]).
+  change (byte nt :: pn :: 0 :: byte (params_len ps / 256) :: byte (params_len ps) :: concat (map m_param ps) ++ rest)
+    with (pre ++ concat (map m_param ps) ++ rest).
+  rewrite (um_sp_params_rt ps _ pre rest 5 (5 + params_len ps)); try assumption; try reflexivity.
+  - cbn [bind]. f_equal. f_equal. cbn [nlen]. rewrite nlen_m_params. lia.
+  - rewrite !nlen_app, nlen_m_params. unfold pre. cbn [nlen]. lia.
+Qed.
+
+Lemma nlen_m_key_data nt kd : nlen (m_key_data nt kd) = kd_size kd.
+Proof.
+  unfold m_key_data, kd_size, put_be16. rewrite !nlen_app. cbn [nlen].
+  destruct (kd_kv kd =? mikey_kv_spi); cbn [nlen]; lia.
+Qed.
+
+Lemma nlen_m_subs subs : nlen (m_subs subs) = encr_len subs.
+Proof.
+  induction subs as [|kd t IH]; cbn [m_subs encr_len nlen]; [reflexivity|].
+  now rewrite nlen_app, nlen_m_key_data, IH.
+Qed.
+
+Lemma um_key_data_rt kd nt rest : wf_key_data kd = true ->
+  um_key_data (m_key_data nt kd ++ rest) = Ok (kd, kd_size kd).
+Proof.
+  destruct kd as [t kv key spi]. unfold wf_key_data, m_key_data, kd_size, um_key_data.
+  cbn [kd_type kd_kv kd_key kd_spi]. unfold_consts. intros Hwf.
+  apply andb_true_iff in Hwf. destruct Hwf as [Hwf Hb2].
+  apply andb_true_iff in Hwf. destruct Hwf as [Hwf Hb1].
+  apply andb_true_iff in Hwf. destruct Hwf as [Hwf Hkl].
+  apply andb_true_iff in Hwf. destruct Hwf as [Ht Hkv].
+  apply N.eqb_eq in Ht. apply N.leb_le in Hkl. subst t.
+  unfold put_be16.
+  apply orb_true_iff in Hkv. destruct Hkv as [Hkv|Hkv]; apply andb_true_iff in Hkv; destruct Hkv as [Hk Hs];
+    apply N.eqb_eq in Hk; subst kv.
+  - destruct spi; [|discriminate]. clear Hs.
+    change (N.lor (byte 2 * 16 mod 256) (byte 0)) with 32. cbn [N.eqb Pos.eqb app].
+    ltb_no.
+    erewrite (idx_at [byte nt] 32) by side. cbn [bind].
+    change (N.shiftr 32 4) with 2. change (N.land 32 15) with 0. cbn [N.eqb Pos.eqb negb andb].
+    erewrite (idx_at [byte nt; 32] (byte (nlen key / 256))) by side. cbn [bind].
+    erewrite (idx_at [byte nt; 32; byte (nlen key / 256)] (byte (nlen key))) by side. cbn [bind].
+    rewrite be16_put by lia.
+    rewrite (slice_from_at [byte nt; 32; byte (nlen key / 256); byte (nlen key)] (key ++ rest)) by side.
+    cbn [bind]. ltb_no.
+    rewrite (slice_at [byte nt; 32; byte (nlen key / 256); byte (nlen key)] key rest) by side.
+    cbn [bind]. f_equal. f_equal. lia.
+  - apply N.leb_le in Hs.
+    change (N.lor (byte 2 * 16 mod 256) (byte 1)) with 33. cbn [N.eqb Pos.eqb app].
+    rewrite (byte_small (nlen spi)) by lia.
+    ltb_no.
+    erewrite (idx_at [byte nt] 33) by side. cbn [bind].
+    change (N.shiftr 33 4) with 2. change (N.land 33 15) with 1. cbn [N.eqb Pos.eqb negb andb].
+    erewrite (idx_at [byte nt; 33] (byte (nlen key / 256))) by side. cbn [bind].
+    erewrite (idx_at [byte nt; 33; byte (nlen key / 256)] (byte (nlen key))) by side. cbn [bind].
+    rewrite be16_put by lia.
+    set (pre := [byte nt; 33; byte (nlen key / 256); byte (nlen key)]).
+    rewrite (slice_from_at pre (key ++ (nlen spi :: spi) ++ rest)) by (unfold pre; side).
+    cbn [bind]. ltb_no.
+    rewrite (slice_at pre key ((nlen spi :: spi) ++ rest)) by (unfold pre; side).
+    cbn [bind].
+    rewrite (slice_from_at (pre ++ key) ((nlen spi :: spi) ++ rest)) by (unfold pre; side).
+    cbn [bind]. ltb_no.
+    rewrite (idx_at (pre ++ key) (nlen spi) (spi ++ rest)) by (unfold pre; side).
+    cbn [bind].
+    rewrite (slice_from_at (pre ++ key ++ [nlen spi]) (spi ++ rest)) by (unfold pre; side).
+    cbn [bind]. ltb_no.
+    rewrite (slice_at (pre ++ key ++ [nlen spi]) spi rest) by (unfold pre; side).
+    cbn [bind]. f_equal. f_equal. lia.
+Qed.
+
+Lemma kd_size_pos kd : 4 <= kd_size kd.
+Proof. unfold kd_size. lia. Qed.
+
+Lemma nlen_le_encr_len subs : nlen subs <= encr_len subs.
+Proof.
+  induction subs as [|kd t IH]; cbn [nlen encr_len]; [lia|]. pose proof (kd_size_pos kd). lia.
+Qed.
+
+Lemma m_key_data_head nt kd : exists tl, m_key_data nt kd = byte nt :: tl.
+Proof. unfold m_key_data. cbn [app]. eauto. Qed.
+
+Lemma um_subs_rt : forall subs fuel pre sn,
+  subs <> [] -> forallb wf_key_data subs = true -> sn = nlen pre -> nlen subs <= nlen fuel ->
+  um_subs fuel (pre ++ m_subs subs) sn = Ok (subs, sn + encr_len subs).
+Proof.
+  induction subs as [|kd t IH]; intros fuel pre sn Hne Hwf Hsn Hf; [congruence|].
+  cbn [forallb] in Hwf. apply andb_true_iff in Hwf. destruct Hwf as [Hkd Ht].
+  destruct fuel as [|f fuel]; cbn [nlen] in Hf; [lia|].
+  cbn [um_subs m_subs encr_len].
+  set (nt := match t with [] => 0 | _ :: _ => mikey_pt_keydata end).
+  rewrite (slice_from_at pre (m_key_data nt kd ++ m_subs t)) by side. cbn [bind].
+  rewrite um_key_data_rt by assumption. cbn [bind].
+  destruct (m_key_data_head nt kd) as [tl Htl].
+  rewrite (idx_at pre (byte nt) (tl ++ m_subs t)) by (rewrite ?Htl; side). cbn [bind].
+  destruct t as [|kd2 t'].
+  - subst nt. change (byte 0) with 0. cbn [N.eqb encr_len]. f_equal. f_equal. lia.
+  - subst nt. unfold_consts. change (byte 20) with 20. cbn [N.eqb Pos.eqb negb].
+    replace (pre ++ m_key_data 20 kd ++ m_subs (kd2 :: t'))
+      with ((pre ++ m_key_data 20 kd) ++ m_subs (kd2 :: t')) by list_eq.
+    rewrite (IH fuel (pre ++ m_key_data 20 kd) (sn + kd_size kd)); try assumption; try congruence.
+    + cbn [bind]. f_equal. f_equal. lia.
+    + rewrite nlen_app. change 20 with mikey_pt_keydata. rewrite nlen_m_key_data. lia.
+    + lia.
+Qed.
+
+Lemma um_kemac_rt e subs m nt rest : wf_payload (PKemac e subs m) = true ->
+  um_kemac (m_payload nt (PKemac e subs m) ++ rest)
+  = Ok (PKemac e subs m, nlen (m_payload nt (PKemac e subs m))).
+Proof.
+  cbn [wf_payload m_payload]. intros Hwf.
+  apply andb_true_iff in Hwf. destruct Hwf as [Hwf Hlen]. apply N.leb_le in Hlen.
+  apply andb_true_iff in Hwf. destruct Hwf as [Hwf Hsubs].
+  apply andb_true_iff in Hwf. destruct Hwf as [Hwf Hne].
+  apply andb_true_iff in Hwf. destruct Hwf as [He Hm].
+  apply N.eqb_eq in He. apply N.eqb_eq in Hm. subst e m.
+  assert (Hne' : subs <> []) by (destruct subs; [discriminate|congruence]).
+  unfold um_kemac, put_be16. unfold mikey_encr_null, mikey_mac_null. change (byte 0) with 0.
+  set (E := encr_len subs) in *.
+  pose proof (nlen_m_subs subs) as HE. fold E in HE.
+  cbn [app]. ltb_no.
+  erewrite (idx_at [byte nt] 0) by side. cbn [bind N.eqb negb].
+  erewrite (idx_at [byte nt; 0] (byte (E / 256))) by side. cbn [bind].
+  erewrite (idx_at [byte nt; 0; byte (E / 256)] (byte E)) by side. cbn [bind].
+  rewrite be16_put by lia.
+  set (pre := [byte nt; 0; byte (E / 256); byte E]).
+  rewrite (slice_from_at pre (m_subs subs ++ [0] ++ rest)) by (unfold pre; side). cbn [bind].
+  ltb_no.
+  rewrite (slice_at pre (m_subs subs) ([0] ++ rest)) by (unfold pre; side). cbn [bind].
+  change (um_subs (0 :: m_subs subs) (m_subs subs) 0) with (um_subs (0 :: m_subs subs) ([] ++ m_subs subs) 0).
+  rewrite (um_subs_rt subs (0 :: m_subs subs) [] 0); try assumption; try reflexivity.
+  - cbn [bind]. rewrite N.add_0_l. fold E. rewrite HE, N.eqb_refl. cbn [negb].
+    rewrite (idx_at (pre ++ m_subs subs) 0 rest) by (unfold pre; side). cbn [bind N.eqb negb].
+    f_equal. f_equal. cbn [nlen]. rewrite nlen_app. cbn [nlen]. lia.
+  - cbn [nlen]. pose proof (nlen_le_encr_len subs). lia.
+Qed.
+
+Lemma um_payload_rt p nt rest : wf_payload p = true ->
+  um_payload (payload_type p) (m_payload nt p ++ rest) = Ok (p, nlen (m_payload nt p)).
+Proof.
+  intros Hwf. unfold um_payload.
+  destruct p as [e subs m|ty v|pn pr ps|d]; cbn [payload_type]; unfold_consts; cbn [N.eqb Pos.eqb].
+  - now apply um_kemac_rt.
+  - now apply um_t_rt.
+  - now apply um_sp_rt.
+  - now apply um_rand_rt.
+Qed.
+
+Lemma m_payload_head nt p : exists tl, m_payload nt p = byte nt :: tl.
+Proof. destruct p; cbn [m_payload app]; eauto. Qed.
+
+Lemma payload_type_facts p :
+  payload_type p <> 0 /\ payload_type p < 256 /\ known_type (payload_type p) = true.
+Proof. destruct p; cbn [payload_type]; unfold known_type; unfold_consts; cbn; repeat split; lia. Qed.
+
+Lemma first_type_lt ps : first_type ps < 256.
+Proof. destruct ps as [|p t]; cbn [first_type]; [lia|]. apply payload_type_facts. Qed.
+
+Lemma um_payloads_rt : forall ps fuel pre rest n,
+  forallb wf_payload ps = true -> n = nlen pre -> nlen ps <= nlen fuel ->
+  um_payloads fuel (pre ++ m_payloads ps ++ rest) n (first_type ps)
+  = Ok (ps, n + nlen (m_payloads ps)).
+Proof.
+  induction ps as [|p t IH]; intros fuel pre rest n Hwf Hn Hf.
+  - cbn [first_type m_payloads nlen]. destruct fuel; cbn [um_payloads N.eqb]; f_equal; f_equal; lia.
+  - cbn [forallb] in Hwf. apply andb_true_iff in Hwf. destruct Hwf as [Hp Ht].
+    destruct fuel as [|f fuel]; cbn [nlen] in Hf; [lia|].
+    cbn [um_payloads first_type m_payloads].
+    destruct (payload_type_facts p) as (Hnz & Hlt & Hk).
+    destruct (N.eqb_spec (payload_type p) 0); [contradiction|]. rewrite Hk. cbn [negb].
+    rewrite <- app_assoc.
+    rewrite (slice_from_at pre (m_payload (first_type t) p ++ m_payloads t ++ rest)) by side. cbn [bind].
+    rewrite um_payload_rt by assumption. cbn [bind].
+    destruct (m_payload_head (first_type t) p) as [tl Htl].
+    rewrite (idx_at pre (byte (first_type t)) (tl ++ m_payloads t ++ rest)) by (rewrite ?Htl; side).
+    cbn [bind]. rewrite (byte_small (first_type t)) by apply first_type_lt.
+    replace (pre ++ m_payload (first_type t) p ++ m_payloads t ++ rest)
+      with ((pre ++ m_payload (first_type t) p) ++ m_payloads t ++ rest) by list_eq.
+    rewrite (IH fuel (pre ++ m_payload (first_type t) p) rest); try assumption; try lia.
+    + cbn [bind]. f_equal. f_equal. rewrite nlen_app. lia.
+    + rewrite nlen_app. lia.
+Qed.
+
+Lemma nlen_m_map mi : nlen (concat (map m_srtp_id mi)) = 9 * nlen mi.
+Proof.
+  induction mi as [|e t IH]; cbn [map concat nlen]; [reflexivity|].
+  rewrite nlen_app, IH. unfold m_srtp_id, put_be32. cbn [nlen app]. lia.
+Qed.
+
+Lemma um_map_rt : forall mi fuel pre rest n,
+  forallb wf_srtp_id mi = true -> n = nlen pre -> nlen mi <= nlen fuel ->
+  um_map fuel (pre ++ concat (map m_srtp_id mi) ++ rest) (nlen mi) n = Ok (mi, n + 9 * nlen mi).
+Proof.
+  induction mi as [|[pol ss rc] t IH]; intros fuel pre rest n Hwf Hn Hf.
+  - cbn [nlen]. destruct fuel; cbn [um_map N.eqb]; f_equal; f_equal; lia.
+  - cbn [forallb] in Hwf. apply andb_true_iff in Hwf. destruct Hwf as [He Ht].
+    unfold wf_srtp_id in He. cbn [policy_no ssrc roc] in He. bool_hyps.
+    destruct fuel as [|f fuel]; cbn [nlen] in Hf; [lia|].
+    cbn [um_map nlen map concat].
+    destruct (N.eqb_spec (N.succ (nlen t)) 0); [lia|]. rewrite N.pred_succ.
+    change (m_srtp_id (mkSrtpId pol ss rc)) with (byte pol :: put_be32 ss ++ put_be32 rc).
+    rewrite (byte_small pol) by assumption.
+    set (tl := concat (map m_srtp_id t) ++ rest).
+    rewrite <- app_assoc. fold tl.
+    erewrite (idx_at pre pol) by side. cbn [bind].
+    rewrite (get_be32_at (pre ++ [pol]) ss (put_be32 rc ++ tl)) by (side || assumption). cbn [bind].
+    rewrite (get_be32_at (pre ++ pol :: put_be32 ss) rc tl) by (assumption || (unfold put_be32; side)).
+    cbn [bind].
+    replace (pre ++ (pol :: put_be32 ss ++ put_be32 rc) ++ tl)
+      with ((pre ++ pol :: put_be32 ss ++ put_be32 rc) ++ concat (map m_srtp_id t) ++ rest)
+      by (unfold tl; list_eq).
+    rewrite (IH fuel (pre ++ pol :: put_be32 ss ++ put_be32 rc) rest (n + 9)); try assumption; try lia.
+    + cbn [bind]. f_equal. f_equal. lia.
+    + unfold put_be32. len_eq.
+Qed.
+
+Lemma nlen_le_m_payloads ps : nlen ps <= nlen (m_payloads ps).
+Proof.
+  induction ps as [|p t IH]; cbn [nlen m_payloads]; [lia|].
+  destruct (m_payload_head (first_type t) p) as [tl ->]. rewrite nlen_app. cbn [nlen]. lia.
+Qed.
+
+Lemma um_header_rt h np rest :
+  wf_header h = true -> np < 256 ->
+  um_header (m_header np h ++ rest) = Ok (h, nlen (m_header np h), np).
+Proof.
+  destruct h as [ver dt v prf csb mt mi]. unfold wf_header, m_header.
+  cbn [version data_type v_flag prf_func csb_id map_type map_info]. unfold_consts.
+  intros Hwf Hnp.
+  apply andb_true_iff in Hwf. destruct Hwf as [Hwf Hmi].
+  apply andb_true_iff in Hwf. destruct Hwf as [Hwf Hnm]. apply N.leb_le in Hnm.
+  apply andb_true_iff in Hwf. destruct Hwf as [Hwf Hmt]. apply N.eqb_eq in Hmt.
+  apply andb_true_iff in Hwf. destruct Hwf as [Hwf Hcsb]. apply N.ltb_lt in Hcsb.
+  apply andb_true_iff in Hwf. destruct Hwf as [Hwf Hprf]. apply N.eqb_eq in Hprf.
+  apply andb_true_iff in Hwf. destruct Hwf as [Hwf Hv]. apply negb_true_iff in Hv.
+  apply andb_true_iff in Hwf. destruct Hwf as [Hver Hdt]. apply N.eqb_eq in Hver. apply N.eqb_eq in Hdt.
+  subst ver dt v prf mt.
+  change (N.lor 0 (byte 0)) with 0. change (byte 1) with 1. change (byte 0) with 0.
+  rewrite (byte_small np), (byte_small (nlen mi)) by lia.
+  set (M := concat (map m_srtp_id mi)).
+  set (pre4 := [1; 0; np; 0]).
+  set (pre10 := pre4 ++ put_be32 csb ++ [nlen mi; 0]).
+  assert (Hbuf : (pre4 ++ put_be32 csb ++ [nlen mi; 0] ++ M) ++ rest = pre10 ++ M ++ rest)
+    by (unfold pre10; list_eq).
+  rewrite Hbuf.
+  assert (H10 : nlen pre10 = 10) by reflexivity.
+  unfold um_header. unfold_consts. ltb_no.
+  erewrite (idx_at [] 1) by (unfold pre10, pre4, put_be32; side). cbn [bind N.eqb Pos.eqb negb].
+  erewrite (idx_at [1] 0) by (unfold pre10, pre4, put_be32; side). cbn [bind N.eqb negb].
+  erewrite (idx_at [1; 0] np) by (unfold pre10, pre4, put_be32; side). cbn [bind].
+  erewrite (idx_at [1; 0; np] 0) by (unfold pre10, pre4, put_be32; side). cbn [bind].
+  change (N.shiftr 0 7) with 0. change (N.land 0 127) with 0. cbn [N.eqb negb].
+  rewrite (get_be32_at pre4 csb ([nlen mi; 0] ++ M ++ rest)) by (assumption || (unfold pre10; side)).
+  cbn [bind].
+  erewrite (idx_at (pre4 ++ put_be32 csb) (nlen mi)) by (unfold pre10, pre4, put_be32; side). cbn [bind].
+  erewrite (idx_at (pre4 ++ put_be32 csb ++ [nlen mi]) 0) by (unfold pre10, pre4, put_be32; side).
+  cbn [bind N.eqb negb].
+  rewrite (slice_from_at pre10 (M ++ rest)) by side. cbn [bind].
+  pose proof (nlen_m_map mi) as HM. fold M in HM.
+  destruct (N.ltb_spec (nlen (M ++ rest)) (nlen mi * 9)) as [Hc|_]; [rewrite nlen_app in Hc; lia|].
+  unfold M. rewrite (um_map_rt mi _ pre10 rest 10); try assumption; try reflexivity.
+  - cbn [bind]. f_equal. f_equal. f_equal.
+    fold M. unfold pre4, put_be32. len_eq.
+  - fold M. rewrite !nlen_app. lia.
+Qed.
+
+Theorem mikey_roundtrip : forall m, wf_message m = true -> mikey_unmarshal (mikey_marshal m) = Ok m.
+Proof.
+  intros [h ps]. unfold wf_message, mikey_marshal, mikey_unmarshal. cbn [msg_header msg_payloads].
+  intros Hwf. apply andb_true_iff in Hwf. destruct Hwf as [Hh Hps].
+  rewrite (um_header_rt h (first_type ps) (m_payloads ps) Hh (first_type_lt ps)). cbn [bind].
+  replace (m_header (first_type ps) h ++ m_payloads ps)
+    with (m_header (first_type ps) h ++ m_payloads ps ++ []) by now rewrite app_nil_r.
+  rewrite (um_payloads_rt ps _ (m_header (first_type ps) h) []); try assumption; try reflexivity.
+  - cbn [bind]. rewrite app_nil_r, nlen_app.
+    destruct (N.ltb_spec (nlen (m_header (first_type ps) h) + nlen (m_payloads ps) + 1)
+                (nlen (m_header (first_type ps) h) + nlen (m_payloads ps))); [lia|reflexivity].
+  - rewrite !nlen_app. pose proof (nlen_le_m_payloads ps). lia.
+Qed.
+
+(* ================= marshalled bytes are bytes ================= *)
+
+Lemma bytes_okb_ok l : bytes_okb l = true -> bytes_ok l.
+Proof.
+  unfold bytes_okb, bytes_ok. rewrite forallb_forall, Forall_forall.
+  intros H x Hx. apply N.ltb_lt. now apply H.
+Qed.
+
+Ltac bytes_cons := repeat (apply Forall_cons; [first [apply byte_lt | lia]|]).
+
+Lemma put_be16_bytes x : bytes_ok (put_be16 x).
+Proof. unfold bytes_ok, put_be16. bytes_cons. constructor. Qed.
+Lemma put_be32_bytes x : bytes_ok (put_be32 x).
+Proof. unfold bytes_ok, put_be32. bytes_cons. constructor. Qed.
+Lemma put_be64_bytes x : bytes_ok (put_be64 x).
+Proof. unfold bytes_ok, put_be64. bytes_cons. constructor. Qed.
+
+Lemma bytes_ok_app a b : bytes_ok a -> bytes_ok b -> bytes_ok (a ++ b).
+Proof. unfold bytes_ok. intros. apply Forall_app. now split. Qed.
+
+Lemma m_map_bytes mi : bytes_ok (concat (map m_srtp_id mi)).
+Proof.
+  induction mi as [|e t IH]; cbn [map concat]; [constructor|].
+  apply bytes_ok_app; [|exact IH]. unfold m_srtp_id.
+  apply Forall_cons; [apply byte_lt|]. apply bytes_ok_app; apply put_be32_bytes.
+Qed.
+
+Lemma m_header_bytes np h : wf_header h = true -> bytes_ok (m_header np h).
+Proof.
+  intros Hwf. unfold wf_header in Hwf.
+  apply andb_true_iff in Hwf. destruct Hwf as [Hwf _].
+  apply andb_true_iff in Hwf. destruct Hwf as [Hwf _].
+  apply andb_true_iff in Hwf. destruct Hwf as [Hwf _].
+  apply andb_true_iff in Hwf. destruct Hwf as [Hwf _].
+  apply andb_true_iff in Hwf. destruct Hwf as [Hwf Hprf]. apply N.eqb_eq in Hprf.
+  apply andb_true_iff in Hwf. destruct Hwf as [Hwf Hv]. apply negb_true_iff in Hv.
+  unfold m_header. rewrite Hv, Hprf. change (N.lor 0 (byte 0)) with 0.
+  repeat apply bytes_ok_app; try apply put_be32_bytes; try apply m_map_bytes;
+    unfold bytes_ok; bytes_cons; constructor.
+Qed.
+
+Lemma m_key_data_bytes nt kd : wf_key_data kd = true -> bytes_ok (m_key_data nt kd).
+Proof.
+  destruct kd as [t kv key spi]. unfold wf_key_data, m_key_data.
+  cbn [kd_type kd_kv kd_key kd_spi]. unfold_consts. intros Hwf.
+  apply andb_true_iff in Hwf. destruct Hwf as [Hwf Hb2]. apply bytes_okb_ok in Hb2.
+  apply andb_true_iff in Hwf. destruct Hwf as [Hwf Hb1]. apply bytes_okb_ok in Hb1.
+  apply andb_true_iff in Hwf. destruct Hwf as [Hwf _].
+  apply andb_true_iff in Hwf. destruct Hwf as [Ht Hkv].
+  apply N.eqb_eq in Ht. subst t.
+  assert (Hkv' : kv = 0 \/ kv = 1).
+  { apply orb_true_iff in Hkv. destruct Hkv as [Hkv|Hkv]; apply andb_true_iff in Hkv;
+      destruct Hkv as [Hk _]; apply N.eqb_eq in Hk; auto. }
+  repeat apply bytes_ok_app; try apply put_be16_bytes; try assumption.
+  - destruct Hkv' as [-> | ->]; [change (N.lor (byte 2 * 16 mod 256) (byte 0)) with 32
+                                |change (N.lor (byte 2 * 16 mod 256) (byte 1)) with 33];
+      unfold bytes_ok; bytes_cons; constructor.
+  - destruct (kv =? 1); [|constructor]. apply Forall_cons; [apply byte_lt|assumption].
+Qed.
+
+Lemma m_subs_bytes subs : forallb wf_key_data subs = true -> bytes_ok (m_subs subs).
+Proof.
+  induction subs as [|kd t IH]; cbn [forallb m_subs]; intros Hwf; [constructor|].
+  apply andb_true_iff in Hwf. destruct Hwf as [Hkd Ht].
+  apply bytes_ok_app; [now apply m_key_data_bytes | now apply IH].
+Qed.
+
+Lemma m_params_bytes ps : forallb wf_param ps = true -> bytes_ok (concat (map m_param ps)).
+Proof.
+  induction ps as [|[ty v] t IH]; cbn [forallb map concat]; intros Hwf; [constructor|].
+  apply andb_true_iff in Hwf. destruct Hwf as [Hp Ht].
+  unfold wf_param in Hp. cbn [fst snd] in Hp.
+  apply andb_true_iff in Hp. destruct Hp as [_ Hb]. apply bytes_okb_ok in Hb.
+  apply bytes_ok_app; [|now apply IH]. unfold m_param. cbn [fst snd].
+  unfold bytes_ok. bytes_cons. exact Hb.
+Qed.
+
+Lemma m_payload_bytes nt p : wf_payload p = true -> bytes_ok (m_payload nt p).
+Proof.
+  destruct p as [e subs m|ty v|pn pr ps|d]; cbn [wf_payload m_payload]; intros Hwf.
+  - apply andb_true_iff in Hwf. destruct Hwf as [Hwf _].
+    apply andb_true_iff in Hwf. destruct Hwf as [_ Hsubs].
+    repeat apply bytes_ok_app; try apply put_be16_bytes; try (now apply m_subs_bytes);
+      unfold bytes_ok; bytes_cons; constructor.
+  - apply bytes_ok_app; [|apply put_be64_bytes]. unfold bytes_ok; bytes_cons; constructor.
+  - apply andb_true_iff in Hwf. destruct Hwf as [Hwf _].
+    apply andb_true_iff in Hwf. destruct Hwf as [_ Hps].
+    repeat apply bytes_ok_app; try apply put_be16_bytes; try (now apply m_params_bytes);
+      unfold bytes_ok; bytes_cons; constructor.
+  - apply andb_true_iff in Hwf. destruct Hwf as [_ Hd]. apply bytes_okb_ok in Hd.
+    apply bytes_ok_app; [|exact Hd]. unfold bytes_ok; bytes_cons; constructor.
+Qed.
+
+Lemma m_payloads_bytes ps : forallb wf_payload ps = true -> bytes_ok (m_payloads ps).
+Proof.
+  induction ps as [|p t IH]; cbn [forallb m_payloads]; intros Hwf; [constructor|].
+  apply andb_true_iff in Hwf. destruct Hwf as [Hp Ht].
+  apply bytes_ok_app; [now apply m_payload_bytes | now apply IH].
+Qed.
+
+Theorem mikey_marshal_bytes_ok : forall m, wf_message m = true -> bytes_ok (mikey_marshal m).
+Proof.
+  intros [h ps]. unfold wf_message, mikey_marshal. cbn [msg_header msg_payloads]. intros Hwf.
+  apply andb_true_iff in Hwf. destruct Hwf as [Hh Hps].
+  apply bytes_ok_app; [now apply m_header_bytes | now apply m_payloads_bytes].
+Qed.
